@@ -74,6 +74,9 @@ func shiftAmount(r *Rng) []byte {
 	if r.Chance(20) {
 		return numOperand(r)
 	}
+	if r.Chance(35) {
+		return vm.Uint64Bytes(uint64(254 + r.Intn(3))) // the 255 / 256 boundary
+	}
 	return vm.Uint64Bytes(ks[r.Intn(len(ks))])
 }
 
@@ -104,12 +107,28 @@ func stackFor(op byte, r *Rng) [][]byte {
 		} else {
 			st = append(st, num(r))
 		}
-	case op == 0x7f: // SUBSTR
+	case op == 0x7f: // SUBSTR: string offset size — half of the cases exactly at / one off the end
 		s := r.Bytes(r.Intn(20))
-		st = append(st, s, vm.Uint64Bytes(uint64(r.Intn(len(s)+2))), vm.Uint64Bytes(uint64(r.Intn(len(s)+2))))
-	case op == 0x80 || op == 0x81:
+		off := r.Intn(len(s) + 2)
+		size := r.Intn(len(s) + 2)
+		if r.Chance(50) {
+			off = r.Intn(len(s) + 1)
+			size = len(s) - off + r.Intn(3) - 1
+			if size < 0 {
+				size = 0
+			}
+		}
+		st = append(st, s, vm.Uint64Bytes(uint64(off)), vm.Uint64Bytes(uint64(size)))
+	case op == 0x80 || op == 0x81: // LEFT / RIGHT: string size
 		s := r.Bytes(r.Intn(20))
-		st = append(st, s, vm.Uint64Bytes(uint64(r.Intn(len(s)+2))))
+		size := r.Intn(len(s) + 2)
+		if r.Chance(50) {
+			size = len(s) + r.Intn(3) - 1
+			if size < 0 {
+				size = 0
+			}
+		}
+		st = append(st, s, vm.Uint64Bytes(uint64(size)))
 	case op == 0xac: // CHECKSIG
 		pub, priv, _ := ed25519.GenerateKey(detRand{r})
 		msg := r.Bytes(32)
@@ -160,10 +179,10 @@ func stackFor(op byte, r *Rng) [][]byte {
 			st = append(st, pubs[i])
 		}
 		mm, nn := uint64(m), uint64(n)
-		if r.Chance(15) {
-			mm = uint64(r.Intn(5))
+		if r.Chance(25) {
+			mm = uint64(r.Intn(5)) // including more signatures than keys, zero signatures
 		}
-		if r.Chance(10) {
+		if r.Chance(15) {
 			nn = uint64(r.Intn(5))
 		}
 		st = append(st, vm.Uint64Bytes(mm), vm.Uint64Bytes(nn))
@@ -186,6 +205,8 @@ func stackFor(op byte, r *Rng) [][]byte {
 			for i := 0; i < ar; i++ {
 				if (op == 0x98 || op == 0x99) && i == ar-1 {
 					st = append(st, shiftAmount(r))
+				} else if (op == 0x98 || op == 0x99) && r.Chance(30) {
+					st = append(st, vm.Uint64Bytes(uint64(1+r.Intn(4)))) // small x: x·2^255 is 2^255 (odd x) or 0
 				} else {
 					st = append(st, numOperand(r))
 				}
@@ -486,6 +507,10 @@ func run(c *Ctx) error {
 		n := per
 		if _, _, _, isNum := numericExpect(op, nil); isNum {
 			n += c.N(10, 40) // numeric opcodes: more boundary operands for the math/big oracle
+		}
+		switch op {
+		case 0x79, 0x7a, 0x7f, 0x80, 0x81, 0xac, 0xad, 0xc0, 0xc1: // structured operands: index / bounds / counts
+			n += c.N(10, 30)
 		}
 		for k := 0; k < n; k++ {
 			cs := &vmlib.Case{Code: progFor(op, c.Rng), Args: stackFor(op, c.Rng), VMVersion: 1, EntryID: c.Rng.Bytes(32)}
